@@ -149,6 +149,101 @@ def parse_short_sets(path, lst):
     return out
 
 
+FLOATS_TAIL = re.compile(r'((?:\s*[-+]?(?:\d+\.\d*|\.\d+)(?:[EeDd][-+]?\d+|[-+]\d+)?)+)\s*$')
+INDEX_END = re.compile(r'(\d+|\*+)\s*$')
+
+
+def scan_printed_rows(path, lst):
+    """TOUGH2-family / TOUGH+ listings, without the reader's table set-up: the data lines of the first result set, per
+    table in file order, as (key text, printed INDEX, text of the values).  A table starts at a header line (a token INDEX
+    or IND.), a repeated identical header is a page break inside the table, a different one or an @@@@@ line ends it.
+    A data line is: key text, an integer (or ****), then nothing but numbers with a decimal point."""
+    data = open(path, 'rb').read()
+    end = lst._fullpos[1] if len(lst._fullpos) > 1 else len(data)
+    lines = data[lst._fullpos[0]:end].decode('latin-1').split('\n')
+    tables, cur, hdr = [], None, None
+    for ln, l in enumerate(lines):
+        toks = l.split()
+        if 'INDEX' in toks or 'IND.' in toks:
+            if cur is None or toks != hdr:
+                cur = []; tables.append(cur); hdr = toks
+            continue
+        if l[1:6] == '@@@@@' or l.startswith('@@@@@'):
+            cur, hdr = None, None; continue
+        if cur is None: continue
+        m = FLOATS_TAIL.search(l)
+        if not m: continue
+        mi = INDEX_END.search(l[:m.start()])
+        if not mi or not l[:mi.start()].strip(): continue
+        cur.append((l[:mi.start()], mi.group(1), m.group(1), ln))
+    return [t for t in tables if t]
+
+
+def layout_lines(rows):
+    """the data lines of one scanned table as the model's input: (offset from the first data line, index, key id)"""
+    ids, out, last = {}, [], -1
+    for (k, i, _, ln) in rows:
+        last = int(i) - 1 if i.isdigit() else last + 1
+        kk = ' '.join(k.split())
+        out.append((ln - rows[0][3], last, ids.setdefault(kk, len(ids) + 1)))
+    return out
+
+
+def repeated_rows(path, lst, names):
+    """per table name: row numbers printed more than once at the first result set, those whose copies differ first
+    (TOUGH2_MP prints a connection once per processor sub-domain).  The row number of a printed INDEX is its rank among
+    the distinct indices; a table the scan cannot match with the reader's (table count or row count) is left out."""
+    out, note = {}, {}
+    if lst.simulator == 'AUTOUGH2': return out, note
+    try: tables = scan_printed_rows(path, lst)
+    except Exception as e: return out, {'scan': 'failed: %r' % e}
+    if len(tables) != len(names): return out, {'scan': '%d tables found by the scan, reader has %d' % (len(tables), len(names))}
+    for nm, rows in zip(names, tables):
+        idx, last = [], -1
+        for (_, i, _, _) in rows:
+            last = int(i) - 1 if i.isdigit() else last + 1
+            idx.append(last)
+        distinct = sorted(set(idx))
+        if len(distinct) != getattr(lst, nm).num_rows:
+            note[nm] = '%d distinct indices in the scan, %d rows in the reader' % (len(distinct), getattr(lst, nm).num_rows); continue
+        rank = {v: r for r, v in enumerate(distinct)}
+        copies = {}
+        for (k, _, vals, _), i in zip(rows, idx): copies.setdefault(rank[i], []).append(vals.split())
+        rep = [r for r, c in copies.items() if len(c) > 1]
+        differ = [r for r in rep if any(c != copies[r][0] for c in copies[r][1:])]
+        same = [r for r in rep if r not in set(differ)]
+        out[nm] = {'differ': sorted(differ), 'same': sorted(same), 'layout': layout_lines(rows)}
+    return out, note
+
+
+def sweep_selections(lst, names, repeated, n_idx, has_short, thorough):
+    """Deterministic row sweeps, one many-item call per table (a second one from the last index): every k-th row
+    (about 160 rows, thorough 2000; column rotating with the row) by integer index, first and last row, and EVERY row that is
+    printed more than once (capped; rows whose copies differ first) in every column by index, and in the last column by
+    name and, for connections, by reversed name."""
+    calls = []
+    for n in names:
+        spec = nav.table_spec(n)
+        if not spec: continue
+        t = getattr(lst, n)
+        nr, cols = t.num_rows, t.column_name
+        if nr == 0: continue
+        k = max(1, nr // (2000 if thorough else 160))
+        sel = [(spec, r, cols[(r // k) % len(cols)]) for r in sorted(set(list(range(0, nr, k)) + [nr - 1]))]
+        rep = repeated.get(n, {'differ': [], 'same': []})
+        reps = (rep['differ'] + rep['same'])[:(2000 if thorough else 300)]
+        for r in reps:
+            sel += [(spec, r, c) for c in cols]
+            name = t.row_name[r]
+            if t._row.get(name) == r:
+                sel.append((spec, name, cols[-1]))
+                if n == 'connection' and isinstance(name, tuple) and name[::-1] not in t._row: sel.append((spec, name[::-1], cols[-1]))
+        for idx in sorted(set([0, n_idx - 1])):
+            calls.append({'sel': list(sel), 'form': 'list', 'short': None, 'index': idx, 'tables': [n], 'sweep': True})
+        if has_short: calls.append({'sel': list(sel), 'form': 'list', 'short': False, 'index': 0, 'tables': [n], 'sweep': True})
+    return calls
+
+
 def gen_selections(lst, names, sim, rng, cap, has_short, thorough):
     """Selections: every non-empty subset of the tables, each in 1-3 orders, rows by name /
     reversed name / integer index, first / last / interior rows, several columns, tuple and list
@@ -273,7 +368,32 @@ def run_file(pl):
         calls = [{'sel': nav.sel_from_json(c['selection']), 'form': c.get('form', 'list'), 'short': c.get('short'), 'index': c.get('index', 0)} for c in pl['calls']]
         for c in calls: c['tables'] = [t for t in names if t in set(spec_table(s[0]) for s in c['sel'])]
     else:
-        calls = gen_selections(lst, names, sim, rng, pl['cap'], has_short, pl['thorough'])
+        repeated, rep_note = repeated_rows(path, lst, names)
+        res['repeated_rows'] = {k: {'copies_differ': len(v['differ']), 'copies_equal': len(v['same'])} for k, v in repeated.items() if v['differ'] or v['same']}
+        if rep_note: res['repeated_rows_scan_note'] = rep_note
+        calls = sweep_selections(lst, names, repeated, n, has_short, pl['thorough']) + gen_selections(lst, names, sim, rng, pl['cap'], has_short, pl['thorough'])
+        # --- which line is read for a row: the model of setup_table_TOUGH2 (coq/C06/HistoryRows.v: row_line, rows, skiplines from the
+        # printed data lines, a repeated index replacing the earlier line) against the reader's table set-up, on the scanned layout
+        res['row_tables'], res['row_disagreements'] = 0, []
+        if pl.get('exe') and repeated:
+            tn_ = [nm for nm in names if nm in repeated]
+            p = subprocess.run([pl['exe']], input=''.join('rows\t' + ''.join('%d,%d,%d;' % x for x in repeated[nm]['layout']) + '\n' for nm in tn_),
+                               stdout=subprocess.PIPE, stderr=subprocess.PIPE, text=True, timeout=600, env=dict(os.environ, OCAMLRUNPARAM='l=8G'))
+            if p.returncode != 0: raise RuntimeError('model driver failed: ' + p.stderr[-1000:])
+            for nm, o in zip(tn_, p.stdout.rstrip('\n').split('\n')):
+                t = getattr(lst, nm)
+                rl, rk, sk = o.split('|')
+                rl = [int(x) for x in rl.split(',')[:-1]]; sk = [int(x) for x in sk.split(',')[:-1]]; rk = rk.split('/')[:-1]
+                res['row_tables'] += 1
+                f, g = {}, {}
+                part = len(rk) == len(t.row_name) and all(f.setdefault(a, b) == b and g.setdefault(b, a) == a for a, b in zip(rk, t.row_name))
+                what = None
+                if rl != list(t.row_line):
+                    k = next((x for x in range(min(len(rl), len(t.row_line))) if rl[x] != t.row_line[x]), min(len(rl), len(t.row_line)))
+                    what = ('row_line[%d] = %s (the last printed line of that row)' % (k, rl[k] if k < len(rl) else None), 'row_line[%d] = %s' % (k, t.row_line[k] if k < len(t.row_line) else None))
+                elif sk != list(t.skiplines)[:len(sk)] or len(t.skiplines) != len(sk) + 1: what = ('skiplines %r...' % sk[:8], 'skiplines %r...' % list(t.skiplines)[:8])
+                elif not part: what = ('row names follow the last printed line of each index', 'row names differ from that')
+                if what: res['row_disagreements'].append({'case': dict(pl['inp'], table=nm), 'model': what[0], 'impl': what[1]})
     # --- stepping: visit every result time in turn and read every cell any selection asks for
     cells = {}
     for c in calls:
@@ -373,6 +493,7 @@ def run_file(pl):
     stats = {'ok': 0, 'timeout': 0, 'raise': 0, 'none': 0, 'items': 0, 'values': 0, 'rev': 0, 'int': 0, 'name': 0, 'tuple_form': 0, 'short_on': 0, 'short_off': 0,
              'multi_table': 0, 'skipping': 0}
     samples = []
+    n_reduced = 0
     hyp = {'selections': 0, 'wf_file': 0, 'wf_metas': 0, 'covers': 0, 'in_hang_class': 0, 'hang_class_and_timeout': 0}
     l2 = None                  # one reader serves all calls of the file; it is re-opened after a call that did not return or raised
     for k, c in enumerate(calls):
@@ -488,9 +609,17 @@ def run_file(pl):
                             exp.append(cells[(tname, key, col)][fi2]); exp_t.append(fulltimes[fi2]); fi2 += 1
                     if len(vv) != len(exp) or not all(b is not None and same_float(a, b) for a, b in zip(vv, exp)):
                         bad = next((x for x in range(min(len(vv), len(exp))) if exp[x] is None or not same_float(vv[x], exp[x])), min(len(vv), len(exp)))
-                        fail('history:differs-from-stepping', 'item %r: %d values, stepping gives %d; first difference at position %d: %r vs %r' % (
-                            it, len(vv), len(exp), bad, vv[bad] if bad < len(vv) else None, exp[bad] if bad < len(exp) else None),
-                            'the series obtained by visiting every result time in turn')
+                        obs = 'item %r: %d values, stepping gives %d; first difference at position %d: %r vs %r' % (
+                            it, len(vv), len(exp), bad, vv[bad] if bad < len(vv) else None, exp[bad] if bad < len(exp) else None)
+                        inp_full = inp
+                        if len(sel) > 6 and not has_short and n_reduced < 3:
+                            # a many-item call: give the witness as the one-item call when that fails alone too
+                            n_reduced += 1
+                            st1, r1 = call_history(l2, [it], c['short'], limit)
+                            if st1 == 'ok' and r1 is not None and [float(x) for x in r1[1]] != exp:
+                                inp = dict(inp, selection=nav.sel_to_json([it]), reduced_from_items=len(sel))
+                        fail('history:differs-from-stepping', obs, 'the series obtained by visiting every result time in turn')
+                        inp = inp_full
                     elif tt != exp_t:
                         fail('history:times-mismatch', 'item %r: %d times returned, first %r; matching times are %d, first %r' % (it, len(tt), tt[:3], len(exp_t), exp_t[:3]),
                              'values paired with the times of the result sets they were read from')
@@ -557,6 +686,7 @@ def collect(ctx, results, timeout):
     ncalls = 0
     sims = {}
     hyp = {}
+    ntab_rows = 0
     for j, r, err in results:
         if err == 'timeout':
             ctx.failure('history-terminates', 'history:worker-timeout', j['inp'], 'the history calls on %s did not finish within %d s although each runs under its own limit' % (j['label'], timeout), 'every call returns')
@@ -575,6 +705,10 @@ def collect(ctx, results, timeout):
             name = 'history-terminates' if 'did not return' in f['observed'] else ('history-restores-state' if 'state-changed' in f['key'] or 'next-prev' in f['key'] else 'history-eq-stepping')
             ctx.failure(name, f['key'], f['input'], f['observed'], f['required'])
         for d in r['disagreements']: ctx.disagreement('history-model-vs-t2listing', d['case'], d['model'], d['impl'])
+        for d in r.get('row_disagreements', []): ctx.disagreement('row_line-model-vs-setup_table', d['case'], d['model'], d['impl'])
+        ntab_rows += r.get('row_tables', 0)
+        if r.get('repeated_rows'): ctx.extra.setdefault('repeated_rows', {})[j['label']] = r['repeated_rows']
+        if r.get('repeated_rows_scan_note'): ctx.extra.setdefault('tables_the_line_scan_could_not_match', {})[j['label']] = r['repeated_rows_scan_note']
         if r.get('n_disagreements', 0) > len(r['disagreements']):
             ctx.corr['history-model-vs-t2listing']['n_disagreements'] += r['n_disagreements'] - len(r['disagreements'])
         for s in r['samples']: ctx.sample(s)
@@ -583,6 +717,7 @@ def collect(ctx, results, timeout):
         ctx.extra.setdefault('per_file', {})[j['label']] = {'sim': r['sim'], 'result_sets': r['n'], 'calls': r['ncalls'], 'table_subsets': len(r['subsets']),
                                                             'time_limit_s': r['limit'], 'set_shapes': r['sets'], 'wall_s': r['wall']}
     ctx.corr_cases('history-model-vs-t2listing', ncalls, files=len(results), **{k: v for k, v in tot.items()})
+    ctx.corr_cases('row_line-model-vs-setup_table', ntab_rows)
     ctx.oracle_cases('history-eq-stepping', tot.get('ok', 0), items=tot.get('items', 0), values=tot.get('values', 0))
     ctx.oracle_cases('history-terminates', ncalls, timeouts=tot.get('timeout', 0))
     ctx.oracle_cases('history-restores-state', tot.get('ok', 0))
